@@ -146,3 +146,75 @@ func (ex *Exec) jsonDecodeString(bs []value) (value, bool) {
 	}
 	return mkString(out), true
 }
+
+// jsonEncodeString models encoding/json.Marshal(string) (HTML escaping on, as
+// json.Marshal does) for strings with symbolic bytes.
+func (ex *Exec) jsonEncodeString(bs []value) []value {
+	tc := ex.tc
+	out := []value{I('"')}
+	const hex = "0123456789abcdef"
+	emitConcrete := func(c byte) {
+		switch {
+		case c == '"' || c == '\\':
+			out = append(out, I('\\'), I(c))
+		case c == '\n':
+			out = append(out, I('\\'), I('n'))
+		case c == '\r':
+			out = append(out, I('\\'), I('r'))
+		case c == '\t':
+			out = append(out, I('\\'), I('t'))
+		case c < 0x20 || c == '<' || c == '>' || c == '&':
+			out = append(out, I('\\'), I('u'), I('0'), I('0'), I(hex[c>>4]), I(hex[c&0xF]))
+		default:
+			out = append(out, I(c))
+		}
+	}
+	for i := 0; i < len(bs); i++ {
+		switch b := bs[i].(type) {
+		case I:
+			if b >= 0x80 {
+				// concrete multi-byte sequence: validate like encoding/json
+				var buf []byte
+				for k := i; k < len(bs) && k < i+4; k++ {
+					cb, ok := bs[k].(I)
+					if !ok {
+						break
+					}
+					buf = append(buf, byte(cb))
+				}
+				r, size := utf8.DecodeRune(buf)
+				switch {
+				case r == utf8.RuneError && size == 1:
+					for _, c := range []byte("\\ufffd") {
+						out = append(out, I(c))
+					}
+				case r == 0x2028 || r == 0x2029:
+					for _, c := range []byte("\\u202") {
+						out = append(out, I(c))
+					}
+					out = append(out, I(hex[r&0xF]))
+				default:
+					for k := 0; k < size; k++ {
+						out = append(out, bs[i+k])
+					}
+				}
+				i += size - 1
+				continue
+			}
+			emitConcrete(byte(b))
+		case *Term:
+			special := tc.Or(tc.Or(tc.BVCmp(OpBVUlt, b, tc.BV(0x20, 8)), tc.BVCmp(OpBVUle, tc.BV(0x80, 8), b)),
+				tc.Or(tc.Or(tc.Eq(b, tc.BV('"', 8)), tc.Eq(b, tc.BV('\\', 8))),
+					tc.Or(tc.Eq(b, tc.BV('<', 8)), tc.Or(tc.Eq(b, tc.BV('>', 8)), tc.Eq(b, tc.BV('&', 8))))))
+			if !ex.branchT(special) {
+				out = append(out, b) // plain byte, stays symbolic
+				continue
+			}
+			if ex.branchT(tc.BVCmp(OpBVUle, tc.BV(0x80, 8), b)) {
+				panic(unsupported("json string model: symbolic non-ASCII byte (UTF-8 validation)"))
+			}
+			emitConcrete(byte(ex.concretize(b)))
+		}
+	}
+	return append(out, I('"'))
+}
